@@ -69,6 +69,10 @@ def covering_pool(r, n):
         if beh in ("append", "prepend"):
             e += [(sc, "delim", nm, b":") for sc in ("all", "build", "launch", "process:web")]
         pool.append(e)
+    # a process type named like the env file of a launch variable ("web" overridden for launch + the process "web.override"): env.launch/web.override
+    # would have to be a file and a directory - the env cannot be laid out, so the write is refused (or every entry is on disk; never a silent loss)
+    for beh in envmodel.BEHAVIOURS:
+        pool.append([("launch", beh, b"web", b"1"), ("process:web.%s" % beh, "append", b"P", b"2"), ("all", "default", b"Q", b"3")])
     # a name that ends in the suffix of its own behaviour ("app.append" appended): the file is app.append.append
     pool.append([("all", b, b"app." + b.encode(), b"x") for b in envmodel.BEHAVIOURS] + [("build", "append", b"app", b"y"), ("all", "append", b"app", b"z")])
     for _ in range(max(2, n // 50)):
@@ -165,6 +169,12 @@ def check_readback(mon, d, entries, case, sh, what, spec_entries=None):
     return True
 
 
+def file_dir_collision(entries):
+    """a launch-scoped variable whose env file has the name of a process type's directory"""
+    files = {n + b"." + b.encode() for s_, b, n, _ in entries if s_ == "launch"}
+    return any(s_.startswith("process:") and s_[len("process:"):].encode() in files for s_, _, _, _ in entries)
+
+
 def run_pair(mon, base, idx, old, new, sh, locked=False):
     """locked: the executor runs as uid 65534 and, before the new env is written, the env directories of the old one lose their
     write bit - the old files cannot be removed. The write may fail; it must not succeed with the old files still there."""
@@ -199,6 +209,10 @@ def run_pair(mon, base, idx, old, new, sh, locked=False):
             if "err" in rep and locked and step == "new":
                 sh.count("locked_writes_refused")
                 sh.nontrivial.add(("locked-refused", frozenset(s_.split(":")[0] for s_, _, _, _ in old)))
+                return
+            if "err" in rep and file_dir_collision(entries):
+                sh.count("unrepresentable_envs_refused")
+                sh.nontrivial.add(("file-dir-collision-refused", step))
                 return
             if "err" in rep:
                 sh.violation("write:error", "write_to_layer_dir(%s env) failed: %s" % (step, rep["detail"]), case)
